@@ -289,7 +289,7 @@ func runCheck(repo, vdir, prop, tier string, verbose, updateBaseline, writeEvide
 		present[n] = true
 	}
 	for _, n := range baseline[prop] {
-		if !present[n] {
+		if !present[n] && !updateBaseline {
 			if kf := matchKnown(known, prop, n); kf != nil {
 				continue
 			}
